@@ -96,6 +96,10 @@ func (e *Engine) verifyFunc(key string) (res *FuncResult) {
 		vc.assert(g)
 		pres = append(pres, g)
 	}
+	for _, df := range ct.Defines {
+		vc.assert(ev.evalBool(df.E))
+		vc.assume("definitional ghost function introduced by contract " + key + ": " + df.Src)
+	}
 	// evaluating requires may have touched globals lazily in fr.old: propagate
 	for k, v := range fr.old.glob {
 		if _, ok := st.glob[k]; !ok {
@@ -112,7 +116,7 @@ func (e *Engine) verifyFunc(key string) (res *FuncResult) {
 	fr.runRegion(nil, fn.Blocks[0], tTrue, st, nil)
 	// vacuity guard: every call-site clause of the contract must have matched a real call site
 	for _, k := range sortedKeys(ct.CallAsserts) {
-		if !vc.firedSites[k] {
+		if !vc.firedSites[k] && !strings.HasSuffix(k, "#any") {
 			var tags []string
 			for _, cl := range ct.CallAsserts[k] {
 				tags = append(tags, cl.Tags...)
@@ -121,7 +125,7 @@ func (e *Engine) verifyFunc(key string) (res *FuncResult) {
 		}
 	}
 	for _, k := range sortedKeys(ct.CallSets) {
-		if !vc.firedSites[k] {
+		if !vc.firedSites[k] && !strings.HasSuffix(k, "#any") {
 			vc.oblige("callsite", sanitize(k)+".set", "the call site '"+k+"' named by the contract exists on a reachable path (it carries a ghost update)", nil, e.posString(fn.Pos()), tTrue, tFalse)
 		}
 	}
